@@ -234,4 +234,61 @@ theorem hi_only_separators (n : Int) (h1 : minInt64 ≤ n) (h2 : n ≤ maxInt64)
 example : Strings.humanizeInt (-9223372036854775808) = ascii "-9,223,372,036,854,775,808" ∧
     Strings.humanizeInt 1000 = ascii "1,000" ∧ Strings.humanizeInt 999 = ascii "999" := by decide +kernel
 
+/-! ## select -/
+
+/-- `{select s i}` on words separated by single spaces (words: non-empty, free of white space, NUL
+    and quotes): the `i`-th word, counting from 0; the empty string when `i` is out of range or
+    negative. -/
+theorem select_spec (ws : List Bytes) (idx : Int) (hne : ws ≠ []) (hw : ∀ w ∈ ws, Spec.IsWord w) :
+    Strings.selectField (Spec.joinWords ws) idx = if 0 ≤ idx then ws.getD idx.toNat [] else [] := by
+  have := sel_words idx ws [] 0 hne hw
+  simpa [Strings.selectField] using this
+
+example : Strings.selectField (Spec.joinWords [ascii "ab", ascii "c", ascii "def"]) 2 = ascii "def" ∧
+    Spec.IsWord (ascii "def") := by
+  refine ⟨by decide +kernel, by decide +kernel, ?_⟩
+  have : ascii "def" = [100, 101, 102] := by decide +kernel
+  rw [this]; decide
+
+/-! ## lookup / haskey -/
+
+/-- The table builder is a function of the lines alone: every non-comment line with one or two
+    fields contributes one entry, in order (so the model's table is this association list). -/
+theorem lookup_table_spec (content commentPrefix : Bytes) :
+    Misc.buildLookupTable content commentPrefix =
+      (((Misc.splitLinesGo content []).map Misc.dropCR).filterMap (lineEntry commentPrefix)) := by
+  unfold Misc.buildLookupTable
+  rw [table_eq_filterMap]; rfl
+
+/-- `{lookup key table}`: later lines win — an entry for `key` followed by no other entry for `key`
+    is the answer; and the call returns the value (or "" when the key is absent). -/
+theorem lookup_spec (c : Ctx) (key : Arg) (content : Bytes) (hm : Misc.lookupModelled content = true) :
+    callHelper Misc.kfLookupKey [key, .const content] c =
+      .ok ((Misc.tableGet (Misc.buildLookupTable content []) (key.val c)).getD []) ∧
+    ∀ (pre post : List (Bytes × Bytes)) (k v : Bytes), (∀ e ∈ post, e.1 ≠ k) →
+      Misc.tableGet (pre ++ [(k, v)] ++ post) k = some v :=
+  ⟨lookup_call c _ key content hm, tableGet_hit⟩
+
+/-- `{haskey key table}` is truthy iff some line of the table has an entry for the key. -/
+theorem haskey_spec (c : Ctx) (key : Arg) (content : Bytes) (hm : Misc.lookupModelled content = true) :
+    callHelper Misc.kfHasKey [key, .const content] c =
+      .ok (truthyStr (Misc.tableGet (Misc.buildLookupTable content []) (key.val c)).isSome) ∧
+    ∀ (tbl : List (Bytes × Bytes)) (k : Bytes), (Misc.tableGet tbl k).isSome = true ↔ ∃ e ∈ tbl, e.1 = k := by
+  refine ⟨lookup_call c _ key content hm, ?_⟩
+  intro tbl k
+  have := tableGet_none_iff tbl k
+  constructor
+  · intro h
+    apply Classical.byContradiction
+    intro hno
+    have : Misc.tableGet tbl k = none := this.mpr (fun e he heq => hno ⟨e, he, heq⟩)
+    rw [this] at h; cases h
+  · intro ⟨e, he, heq⟩
+    cases hg : Misc.tableGet tbl k with
+    | none => exact absurd heq (this.mp hg e he)
+    | some _ => rfl
+
+example : Misc.tableGet (Misc.buildLookupTable (ascii "a 1\n#a 9\nb\na 2\nx y z") (ascii "#")) (ascii "a")
+    = some (ascii "2") := by decide +kernel
+
 end Rare.C11
